@@ -103,10 +103,10 @@ _apps = {}
 _count = [0]
 
 
-def get_app(alg, qop, users, realm, requser, secret="sekret", timeout=300, toy=False):
+def get_app(alg, qop, users, realm, requser, secret="sekret", timeout=300, toy=False, table="dict"):
     from poorwsgi import Application, state
     from poorwsgi.digest import check_digest
-    key = (alg, qop, tuple(users), realm, requser, secret, timeout, toy)
+    key = (alg, qop, tuple(users), realm, requser, secret, timeout, toy, table)
     if key in _apps:
         return _apps[key]
     _count[0] += 1
@@ -122,6 +122,27 @@ def get_app(alg, qop, users, realm, requser, secret="sekret", timeout=300, toy=F
     for r, u, stored in users:
         amap.setdefault(r, {})[u] = stored
     app.auth_map = amap
+    if table != "dict":
+        # the user table kept in a password file (htdigest layout `user:realm:hash`, one line each) and loaded from it:
+        # written by the class itself, or by another tool - the last line with or without its line end, CRLF line ends
+        import tempfile
+        from poorwsgi.digest import PasswordMap
+        path = os.path.join(tempfile.mkdtemp(prefix="verif_c11_"), "users.digest")
+        if table == "file-written":
+            pm = PasswordMap(path)
+            for r, u, stored in users:
+                pm.set(r, u, stored)
+            pm.write()
+        else:
+            eol = "\r\n" if table == "file-crlf" else "\n"
+            text = eol.join("%s:%s:%s" % (u, r, stored) for r, u, stored in users) + ("" if table == "file-noeol" else eol)
+            with open(path, "w", encoding="utf-8", newline="") as fh:
+                fh.write(text)
+        loaded = PasswordMap(path)
+        loaded.load()
+        app.auth_map = loaded
+        import shutil
+        shutil.rmtree(os.path.dirname(path), ignore_errors=True)
     ran = []
 
     @check_digest(realm, requser)
@@ -407,6 +428,19 @@ def oracle(case):
         user, password = rng.choice(pool)
         requser = user
         app = get_app(alg, qop, users, realm, requser, secret, timeout)
+    rng2 = random.Random(int(t[2]) ^ 0x5A5A5A)
+    table = None
+    if rng2.random() < 0.3 and users and all(":" not in u and ":" not in r and u == u.strip() and r == r.strip() and u and r
+                                             and "\n" not in u + r and "\r" not in u + r for r, u, _ in users):
+        table = rng2.choice(["file-written", "file-eol", "file-noeol", "file-noeol", "file-crlf"])
+        if table == "file-noeol" and rng2.random() < 0.7:
+            # the user who signs in is the one on the last line
+            users = tuple(x for x in users if x[1] != user or x[0] != realm) + tuple(x for x in users if x[1] == user and x[0] == realm)
+        try:
+            app = get_app(alg, qop, users, realm, requser, secret, timeout, table=table)
+        except Exception as err:
+            return [Violation("c11:table-file", case, "loading the user table from a password file (%s, %r) raised %r"
+                              % (table, [(r, u) for r, u, _ in users], err))]
     age = 0.0
     expect_run, expect_stale, note = True, None, ""
     f = client_fields(hfun, alg, qop, user, realm, password, nonce, method, uri, opaque_of())
@@ -499,7 +533,8 @@ def oracle(case):
     except Exception as err:
         return [Violation("c11:escape", case, "%s: the application raised %r" % (scenario, err))]
     bad, key = None, scenario
-    desc = "%s/%s qop=%r %s %s?%s user=%r required=%r [%s %s]%s" % (alg, realm, qop, method, path, query, user, requser, scenario, note,
+    desc = ("user table loaded from a password file (%s); " % table if table else "") + \
+        "%s/%s qop=%r %s %s?%s user=%r required=%r [%s %s]%s" % (alg, realm, qop, method, path, query, user, requser, scenario, note,
                                                                     " poor_SecretKey set on the request" if extra else "")
     if status == 500:
         bad = "500 Internal Server Error"
